@@ -28,6 +28,9 @@ def generate(seed, tier):
     if scn['config']['frag'] == 'whole':
         scn['config']['frag'] = g.pick(['mixed', 'boundary', 'uniform'])
         scn['config']['p_empty'] = g.pick([0.0, 0.05])
+    for op in scn['actors'][0]:
+        if op['op'] == 'push' and not op.get('mtime'):
+            op['mtime'] = 1234      # mtime 0 means 'now', which legitimately differs between the paired runs (fragmented delivery takes longer)
     case = {'seed': seed, 'scn': scn}
     if g.chance(0.35):
         case['corrupt'] = {'pick': g.int(0, 1 << 30), 'kind': g.pick(['byte', 'bit', 'cmd', 'cmd']), 'off': g.int(0, 1 << 20), 'bitno': g.int(0, 7), 'delta': g.int(0, 253)}
